@@ -112,8 +112,7 @@ def queries(tier):
         for (cap, m) in [(0, 0), (10, 3), (20, 5)]:
             for op in (1, 3, 4, 7):
                 qs.append(step(cap, m, op, 0, tier, fullhash=True, optional=True))
-        # stretch: growth with a fully symbolic chain structure (measured: no verdict in 2700 s; outside the claim)
-        qs.append(step(10, 10, 1, 0, tier, optional=True, timeout=3000, mem=12))
+        # growth with a fully symbolic chain structure: measured twice, no verdict in 2700 s / 2400 s -> not run (outside the claim, see OUTSIDE)
     return qs
 
 def queries_c16(tier):
